@@ -31,6 +31,12 @@
 (* metadata at construction and changed afterwards was opened with the      *)
 (* announced frame count (np.memmap raised after a shrink, stale count      *)
 (* after growth).  "fixed" takes the size when the file is opened.          *)
+(* Histories of one object (every kind of reader): constructed early       *)
+(* (Construct), an open() that failed because the file (or its .ch) was    *)
+(* away at that moment (OpenFails: the object is left as constructed), and *)
+(* opened again after the file changed (Reopen: a recording in progress    *)
+(* polled by re-opening, a copy replaced under a reader): the object then  *)
+(* holds the duration the previous open() left in its metadata.            *)
 (*                                                                         *)
 (* Property layer: OpenSucceedsP, ExposedP, WithinFileP, DurationP, ReadP   *)
 (* speak about the outcome of the constructor and the values handed out.    *)
@@ -125,7 +131,10 @@ Init == /\ F \in FSet
 \* (explored at frame boundaries and one byte on either side of them: the code only ever looks at the size through
 \*  `size = ns * F` and `size div F`)
 NearFrame(b) == b % F \in {0, 1, F - 1}
-Construct == /\ pc = "writing" /\ kind = "offline" /\ cbytes = -1 /\ bytes >= 1 /\ NearFrame(bytes)
+\* (histories of the readers whose open() never had the constructor's size to look at - OnlineReader, compressed files -
+\*  are explored on small frames only)
+HistoryExplored == kind = "offline" \/ F <= 10
+Construct == /\ pc = "writing" /\ cbytes = -1 /\ bytes >= 1 /\ NearFrame(bytes) /\ HistoryExplored
              /\ cbytes' = bytes
              /\ UNCHANGED <<F, bytes, meta, kind, quiet, pc, ns, rlf, ftsq, ftsw>>
 \* a shorter copy replaces the file the constructor saw
@@ -160,7 +169,22 @@ Open == /\ pc = "closed"
                  ELSE UNCHANGED <<ns, rlf, ftsq, ftsw>>
         /\ UNCHANGED <<F, bytes, meta, kind, quiet, cbytes>>
 
-Next == WriterAppend \/ WriterStop \/ Construct \/ Truncate \/ Open
+\* open() of an object constructed earlier fails for a reason of the environment (the file, or the .ch of a compressed
+\* file, is away while a copy is being put in place): nothing of the object has changed; the file is back afterwards
+OpenFails == /\ pc = "closed" /\ cbytes >= 0
+             /\ pc' = "writing"
+             /\ UNCHANGED <<F, bytes, meta, kind, quiet, ns, rlf, ftsq, ftsw, cbytes>>
+
+\* the same object is opened again later (with or without close() in between): what it holds of the metadata is what
+\* the previous open() left there; the acquisition has written more in the meantime, or a shorter copy replaced the file.
+\* (explored from the sizes Construct is explored from; "orig" / "cachedsize" kept the constructor's size for ever and
+\* left fractional durations behind: their re-opening is not modelled)
+Reopen == /\ Variant = "fixed" /\ pc = "opened" /\ ftsw /\ NearFrame(bytes) /\ HistoryExplored
+          /\ pc' = "writing" /\ cbytes' = bytes /\ meta' = ftsq
+          /\ ns' = -1 /\ rlf' = -1 /\ ftsq' = -1 /\ ftsw' = TRUE       \* judged again by the next Open
+          /\ UNCHANGED <<F, bytes, kind, quiet>>
+
+Next == WriterAppend \/ WriterStop \/ Construct \/ Truncate \/ Open \/ OpenFails \/ Reopen
 
 Spec == Init /\ [][Next]_vars
 
@@ -208,15 +232,20 @@ MetaDurationWhole == (pc = "opened" /\ kind # "online") => (ftsw /\ ftsq = ns)
 -----------------------------------------------------------------------------
 (* spec -> code: every case of the box with what the property layer expects of it *)
 MaxF == CHOOSE f \in FSet : \A g \in FSet : g <= f
-\* (cq, cr): what a constructor that ran early saw (-1: none); deferred cases for the offline Reader only
+\* (cq, cr): what a constructor that ran early saw (-1: none).  Deferred cases: the full neighbourhood for the offline Reader
+\* opened quietly (the branch that used the cached size), a thinner one (one frame more / fewer at construction, whole frames
+\* then) for the other kinds of reader and for ignore_warnings = False
+ThinDeferred(c) == /\ c.cr = 0 /\ c.r \in {0, 1} /\ c.meta \in {c.cq, c.q}
+                   /\ (c.cq = c.q + 1 \/ c.cq = c.q - 1)
 Cases == {c \in [kind : Kinds, F : FSet, q : 1..MaxFrames, r : 0..(MaxF - 1),
                  meta : (0..MaxMeta) \cup {Absent}, quiet : BOOLEAN, cq : -1..(MaxFrames + 1), cr : {0, 1}] :
             /\ c.r < c.F
             /\ c.kind = "cbin" => c.r = 0          \* (both values of ignore_warnings: the branch that rewrites the duration must not depend on it)
             /\ c.meta = Absent => c.kind = "online"
             /\ c.cq = -1 => c.cr = 0
-            /\ c.cq >= 0 => /\ c.kind = "offline" /\ c.quiet /\ c.r \in {0, 1, c.F - 1} /\ c.cq * c.F + c.cr # c.q * c.F + c.r
-                            /\ c.meta \in {c.cq, c.q, c.q + 1}}
+            /\ c.cq >= 0 => /\ c.r \in {0, 1, c.F - 1} /\ c.cq * c.F + c.cr # c.q * c.F + c.r
+                            /\ c.meta \in {c.cq, c.q, c.q + 1}
+                            /\ (c.kind = "offline" /\ c.quiet) \/ ThinDeferred(c)}
 Expect(c) == [outcome |-> "opened", ns |-> c.q, rlf |-> c.q,
               impl_outcome |-> ImplOutcomeD(c.kind, c.F, c.q, c.r, c.meta, c.quiet, c.cq, c.cr),
               impl_ns |-> ImplNsD(c.kind, c.F, c.q, c.r, c.meta, c.cq, c.cr)]
